@@ -284,6 +284,8 @@ func (bc *buildCtx) realImpl(d *D) interface{} {
 		return tGoStrStringer{"G:" + string(d.S), string(d.S)}
 	case "Fmter":
 		return tFmter{string(d.S)}
+	case "PadFmter":
+		return tPadFmter{string(d.S)}
 	case "ErrFmter":
 		return tErrFmter{"E:" + string(d.S), string(d.S)}
 	case "FmtFlags":
@@ -1029,7 +1031,7 @@ func (bc *buildCtx) twinSafe(d *D) interface{} {
 func leafBracketable(k string) bool {
 	switch k {
 	case "bool", "NBool", "float32", "float64", "NFloat", "string", "NStr",
-		"Stringer", "PStringer", "Err", "StdErr", "WrapErr", "PErr", "ErrStringer", "GoStrStringer", "Fmter", "ErrFmter", "FmtFlags",
+		"Stringer", "PStringer", "Err", "StdErr", "WrapErr", "PErr", "ErrStringer", "GoStrStringer", "Fmter", "PadFmter", "ErrFmter", "FmtFlags",
 		"RegInt", "RegStr", "RegDur":
 		return true
 	}
